@@ -4,6 +4,7 @@
 // Author: Shuo Chen (chenshuo at chenshuo dot com)
 
 #include "muduo/base/ThreadPool.h"
+#include "muduo/base/VerifHooks.h"
 
 #include "muduo/base/Exception.h"
 
@@ -125,6 +126,7 @@ void ThreadPool::runInThread()
     {
       threadInitCallback_();
     }
+    MUDUO_VERIF_POINT("ThreadPool::runInThread:beforeRunningTest", this);
     while (running_)
     {
       Task task(take());
@@ -132,6 +134,7 @@ void ThreadPool::runInThread()
       {
         task();
       }
+      MUDUO_VERIF_POINT("ThreadPool::runInThread:beforeRunningTest", this);
     }
   }
   catch (const Exception& ex)
